@@ -910,6 +910,18 @@ func (e *Env) lvalueTargets(ex interface{}) []modTarget {
 	case *ast.CallExpr:
 		fn := exprStr(n.Fun)
 		switch fn {
+		case "when":
+			// when(cond, lvalue): the location may change only if cond holds (evaluated in the pre-state).
+			// Encoded by redirecting the index to the impossible address -1 when cond is false.
+			c := asTerm(e.eval(n.Args[0]).V)
+			inner := e.lvalueTargets(n.Args[1])
+			for i := range inner {
+				if inner[i].whole {
+					panic("modifies: when() over a whole heap")
+				}
+				inner[i].idx = x.tt.Ite(c, inner[i].idx, x.tt.IntLit(-1))
+			}
+			return inner
 		case "all":
 			base := e.eval(n.Args[0])
 			p := base.T.Underlying().(*types.Pointer)
@@ -1005,7 +1017,7 @@ func (x *Exec) checkFrame(fr *Frame, st *State) {
 		}
 	}
 	for _, name := range x.allHeapNames(st) {
-		if strings.HasPrefix(name, "L$") || strings.HasPrefix(name, "I$") || wholeOK[name] {
+		if strings.HasPrefix(name, "L$") || strings.HasPrefix(name, "I$") || wholeOK[name] || x.isUnframedHeap(name) {
 			continue
 		}
 		if con.Recycled && !(strings.HasPrefix(name, "H$") || strings.HasPrefix(name, "G$")) {
